@@ -20,6 +20,7 @@ import implenv  # noqa: F401  (sys.path, stubs, cwd)
 
 import gc
 import io
+import os
 import re
 import sys
 
@@ -364,10 +365,120 @@ def run_oneshot_case(case):
     }
 
 
+# ----------------------------------------------------------------- env: resizes, writes to .loop, data re-use
+#
+# mode "env" (C08): the history may contain, beside the operations above,
+#   ["resize", [columns, lines]]  the terminal is resized: from now on `get_terminal_size()`, as seen by every
+#                                 loaded term_image module (and through COLUMNS / LINES), returns that size
+#   ["poke", v]                   the client assigns `iterator.loop = v`
+# `term0`: terminal size when the iterator is constructed.  `second` (optional): {"args", "pad", "loops",
+# "cache", "owns", "ops"}: once the history is over the iterator is dropped and a second one is made with
+# `_from_render_data_` over the SAME render data (requires owns == False for the first).
+# Every step (resize and poke included) yields [out, iterator.loop, renderable.tell()].
+
+TERM = [80, 30]
+
+
+def _current_terminal_size():
+    return os.terminal_size((TERM[0], TERM[1]))
+
+
+def _terminal_hooks():
+    return [(name, mod) for name, mod in list(sys.modules.items())
+            if name.startswith("term_image") and callable(getattr(mod, "get_terminal_size", None))]
+
+
+def set_terminal_size(size):
+    TERM[0], TERM[1] = int(size[0]), int(size[1])
+    os.environ["COLUMNS"], os.environ["LINES"] = str(TERM[0]), str(TERM[1])
+
+
+def run_steps(it, r, steps, sink):
+    for o in steps:
+        if o[0] == "resize":
+            set_terminal_size(o[1])
+            out = ["K"]
+        elif o[0] == "poke":
+            it.loop = o[1]
+            out = ["K"]
+        else:
+            out = apply_op(it, o)
+        sink.append([out, it.loop, r.tell()])
+
+
+def run_env_case(case):
+    saved = [(mod, mod.get_terminal_size) for _, mod in _terminal_hooks()]
+    saved_env = {k: os.environ.get(k) for k in ("COLUMNS", "LINES")}
+    for mod, _ in saved:
+        mod.get_terminal_size = _current_terminal_size
+    try:
+        return _run_env_case(case)
+    finally:
+        for mod, fn in saved:
+            mod.get_terminal_size = fn
+        for k, v in saved_env.items():
+            if v is None:
+                os.environ.pop(k, None)
+            else:
+                os.environ[k] = v
+        TERM[0], TERM[1] = 80, 30
+
+
+def _run_env_case(case):
+    set_terminal_size(case.get("term0", [80, 30]))
+    r = make_renderable(case)
+    res = {"ops": [], "ctor2": None, "ops2": []}
+    second = case.get("second")
+    data = None
+    try:
+        if case.get("owns", True):
+            if second is not None:
+                raise AssertionError("a second iterator needs caller-owned render data")
+            it = RenderIterator(r, mk_args(case["args"]), mk_padding(case["pad"]), case["loops"], case["cache"])
+        else:
+            data = r._get_render_data_(iteration=True)
+            it = RenderIterator._from_render_data_(
+                r, data, mk_args(case["args"]), mk_padding(case["pad"]), case["loops"], case["cache"],
+                finalize=False)
+        res["ctor"] = ["ok"]
+    except AssertionError:
+        raise
+    except Exception as e:  # noqa: BLE001
+        res["ctor"] = ["err"] + classify(e)[1:]
+        if data is not None:
+            data.finalize()
+        res["log"] = r.log
+        return res
+    run_steps(it, r, case["ops"], res["ops"])
+    if second is not None:
+        del it  # the first iterator loses its last reference
+        gc.collect()
+        set_terminal_size(second.get("term", TERM))
+        it = None
+        try:
+            it = RenderIterator._from_render_data_(
+                r, data, mk_args(second["args"]), mk_padding(second["pad"]), second["loops"], second["cache"],
+                finalize=bool(second.get("owns", False)))
+            res["ctor2"] = ["ok"]
+        except Exception as e:  # noqa: BLE001
+            res["ctor2"] = ["err"] + classify(e)[1:]
+        if it is not None:
+            run_steps(it, r, second["ops"], res["ops2"])
+    it = None
+    gc.collect()
+    if data is not None:
+        data.finalize()
+    res["log"] = r.log
+    return res
+
+
 def run_case(case):
     FIN_CALLS.clear()
-    if case.get("mode", "iter") == "iter":
+    mode = case.get("mode", "iter")
+    if mode == "iter":
         return run_iter_case(case)
+    if mode == "env":
+        return run_env_case(case)
     return run_oneshot_case(case)
 
 
